@@ -59,8 +59,8 @@ def collTags (ts : List T) (c : Rat) : List String :=
 def baseCls (s : String) : String := (s.splitOn ":").headD ""
 
 /-- the model of the code as it is now (tie): `consensusNow = consensusCut cutNow`, `cutNow` being the
-    FMA-corrected float64 cut since a53968e (= the exact floor, `fma_cut_exact`, so this is `consensus`
-    of the theorems, `consensus_fma_cut`); before, the truncated float64 product (`consensusFloat`) -/
+    FMA-corrected float64 cut since a53968e.  Theorem `consensusNow_eq_consensus`: for fewer than 2^52
+    trees this IS the `consensus` of the theorems (`cutNow_exact`, proved for the `roundF64` used here). -/
 def modelNow (ord : List Entry → List Entry) (ts : List T) (c : Rat) : Out := consensusNow ord ts c
 
 /-- oracle + tie for one run of Consensus -/
@@ -128,14 +128,33 @@ def judge (tagsIn : List String) (c : Rat) (floorGo : Int) (ts : List T) (cls : 
         | none => ⟨.tie, dtags, "the literal model (hash map, neighbour order) fails where the implementation and the first model succeed"⟩
       | _, _ => ⟨.tie, dtags, "model accepts, implementation: " ++ cls⟩
 
+/-- the threshold field of a case line: what `core.Rat` prints for a float64 -/
+def parseThr (s : String) : Option Thr :=
+  if s == "nan" then some .nan
+  else if s == "+inf" then some (.inf false)
+  else if s == "-inf" then some (.inf true)
+  else (parseRat? s).map .fin
+
+/-- a threshold that is NaN or ±Inf is not in [1/2, 1]: the property demands a rejection
+    (`demandedThr … none = some false`), and so does the model (`consensusThr`) -/
+def judgeNonFinite (tagsIn : List String) (t : Thr) (ts : List T) (cls : String) : Verdict :=
+  let tags := tagsIn ++ ["nonfinite", match t with | .nan => "thr-nan" | .inf false => "thr-posinf" | _ => "thr-neginf"]
+  if demandedThr ts none == some false && baseCls cls != "err" then
+    ⟨.oracle, tags, "threshold outside [1/2,1] (not a finite number) not rejected: " ++ cls⟩
+  else match consensusThr id ts t with
+    | .err w => if cls == "err:range" then ⟨.pass, ("model-err-" ++ w) :: "rejected-range" :: tags, ""⟩
+                else ⟨.tie, tags, "model rejects (" ++ w ++ "), implementation: " ++ cls⟩
+    | _ => ⟨.tie, tags, "model accepts a non-finite threshold, implementation: " ++ cls⟩
+
 def parseRes (cls res : String) : Option (Option T) :=
   if baseCls cls == "ok" then (T.undump res).map some else some none
 
 def handle (op : String) (f : List String) : Verdict :=
   match op, f with
   | "cons", [kind, cs, fl, dumps, cls, res] =>
-    match parseRat? cs, fl.toInt?, parseDumps dumps, parseRes cls res with
-    | some c, some floorGo, some ts, some r => judge [kind] c floorGo ts cls r
+    match parseThr cs, fl.toInt?, parseDumps dumps, parseRes cls res with
+    | some (.fin c), some floorGo, some ts, some r => judge [kind] c floorGo ts cls r
+    | some t, some _, some ts, some _ => judgeNonFinite [kind] t ts cls
     | _, _, _, _ => bad "C09.cons fields"
   | "clif", [kind, mode, ftextE, fl, dumps, cls, res] =>
     -- CLI with the threshold as text: `cmd/consensus.go` = parse the flag (model `cliCutoff`), then Consensus
@@ -144,13 +163,15 @@ def handle (op : String) (f : List String) : Verdict :=
       let modeTags := match mode.toNat? with
         | some m => tagIf (m % 2 == 1) "cli-stdin" ++ tagIf ((m / 2) % 2 == 1) "cli-nexus" ++ tagIf ((m / 4) % 2 == 1) "cli-outfile"
         | none => []
-      (match cliCutoff (if ftext.isEmpty then none else some ftext) with
+      (match cliCutoffThr (if ftext.isEmpty then none else some ftext) with
        | none =>
-         if baseCls cls == "err" then ⟨.pass, [kind, "cli-flag-rejected"] ++ modeTags, ""⟩
-         else ⟨.tie, [kind] ++ modeTags, "the model rejects the text of -f, the command ran: " ++ cls⟩
-       | some c =>
-         if cls == "err:flag" then ⟨.tie, [kind] ++ modeTags, "the command rejects the text of -f, the model reads " ++ showRat c⟩
-         else judge ([kind] ++ modeTags) c floorGo ts cls r)
+         if cls == "err:flag" then ⟨.pass, [kind, "cli-flag-rejected"] ++ modeTags, ""⟩
+         else ⟨.tie, [kind] ++ modeTags, "the model rejects the text of -f as a flag error, the command: " ++ cls⟩
+       | some t =>
+         if cls == "err:flag" then ⟨.tie, [kind] ++ modeTags, "the command rejects the text of -f, the model reads it"⟩
+         else match t with
+           | .fin c => judge ([kind] ++ modeTags) c floorGo ts cls r
+           | t => judgeNonFinite ([kind] ++ modeTags) t ts cls)
     | _, _, _, _ => bad "C09.clif fields"
   | "inv", [kind, cs, fl, dumpsA, clsA, resA, dumpsB, clsB, resB] =>
     match parseRat? cs, fl.toInt?, parseDumps dumpsA, parseRes clsA resA, parseDumps dumpsB, parseRes clsB resB with
